@@ -345,6 +345,22 @@ func vScripts() []vScript {
 			b, _ := v.Marshal()
 			dr.opInbound(b, "quorum-of-current-set-other-index")
 		}},
+		{"c13-inbound-vaa-under-quorum-with-signature-indices-outside-the-set", func(dr *vDriver, w *vWorld) {
+			// gossip needs no valid signature to get this far: one signature record each, naming guardian positions 0, 2, 3 (= the set
+			// size), 200 and 255 of a set of three; all are under quorum and dropped, the node keeps processing
+			mem := members(3, 0)
+			gs := w.set(mem, 0)
+			dr.opClock(1000)
+			dr.opSetGS(gs)
+			k := w.msg(0)
+			for _, idx := range []uint8{0, 2, 3, 200, 255, 1} {
+				v := dr.vaaOfMsg(k, 0)
+				v.AddSignature(w.key(mem[1]), idx)
+				b, _ := v.Marshal()
+				dr.opInbound(b, "one-signature-record-index-"+fmt.Sprint(idx))
+			}
+			dr.opInbound(w.signedVAA(k, gs, mem, []int{0, 1, 2}), "valid")
+		}},
 		{"c02-governance-emitter-message-for-an-already-stored-governance-vaa", func(dr *vDriver, w *vWorld) {
 			// an operator-injected governance VAA is completed and stored; a chain message from the governance emitter with the same id
 			// and a block time within the settlement window must still not be signed
@@ -506,6 +522,43 @@ func vScripts() []vScript {
 					return
 				}
 			}
+		}},
+		{"c01-inbound-vaa-naming-the-previous-set-after-a-rotation-to-a-smaller-set", func(dr *vDriver, w *vWorld) {
+			// set 0 has seven guardians (threshold 5), set 1 four (threshold 3).  After the rotation a peer sends VAAs that name set 0 and carry
+			// three, four and five valid signatures of set 0: none of them is complete for the node's current set (a peer / backfill VAA is
+			// judged against the current set), and three or four are not even complete for set 0
+			mA := []int{-1, 30, 31, 32, 33, 34, 35}
+			mB := []int{-1, 30, 40, 41}
+			gA := w.set(mA, 0)
+			gB := w.set(mB, 1)
+			dr.opClock(1000)
+			dr.opSetGS(gA)
+			dr.opInbound(w.signedVAA(w.msg(0), gA, mA, []int{0, 1, 2, 3, 4}), "valid")
+			dr.opSetGS(gB)
+			for _, pos := range [][]int{{1, 2, 3}, {2, 3, 4, 5}, {1, 2, 3, 4, 5}, {0, 1, 2, 3, 4, 5, 6}} {
+				dr.opInbound(w.signedVAA(w.msg(0), gA, mA, pos), fmt.Sprintf("previous-set-%d-signatures", len(pos)))
+			}
+			dr.opInbound(w.signedVAA(w.msg(0), gB, mB, []int{0, 1, 2}), "valid")
+		}},
+		{"c01-complete-under-one-set-then-rotation-reobservation-and-one-more-signature", func(dr *vDriver, w *vWorld) {
+			// the message reaches quorum under set 0 (four guardians) and its VAA is stored; the set rotates to seven guardians (threshold 5),
+			// the watcher re-observes the message, the node's own signature and one more arrive: whatever is stored under the message id
+			// afterwards still carries a valid quorum of the set it names
+			mA := []int{-1, 30, 31, 32}
+			mB := []int{-1, 30, 31, 32, 40, 41, 42}
+			dr.opClock(1000)
+			dr.opSetGS(w.set(mA, 0))
+			k := w.msg(0)
+			d := digestOfMsg(k, 0)
+			dr.opMsg(k)
+			dr.opLoop(0)
+			dr.opObs(w.obsBy(mA[1], d, k.TxHash[:]), "member")
+			dr.opObs(w.obsBy(mA[2], d, k.TxHash[:]), "member")
+			dr.opSetGS(w.set(mB, 1))
+			dr.opMsg(k)
+			dr.opLoop(0)
+			dr.opObs(w.obsBy(mB[4], d, k.TxHash[:]), "member")
+			dr.opObs(w.obsBy(mB[1], d, k.TxHash[:]), "member")
 		}},
 		{"c02-reobservation-after-a-rotation-then-quorum-of-the-new-set", func(dr *vDriver, w *vWorld) {
 			// observed under set 1 (below quorum), the set rotates to other members under index 2, the watcher re-observes the same message
